@@ -304,6 +304,10 @@ curObj == <<cur[2], cur[3]>>
 
 StartOp(op) ==
     /\ pc = "idle" /\ Len(hist) < MaxOps
+    \* a file round trip is only explored where something is sampled afterwards
+    /\ IF op[1] # "io" THEN TRUE
+       ELSE /\ Len(hist) + 1 < MaxOps
+            /\ (IF hist = <<>> THEN TRUE ELSE hist[Len(hist)][1] # "io")
     /\ hist' = Append(hist, op)
     /\ work' = Program(op)
     /\ parts' = <<>>
